@@ -90,7 +90,11 @@ def oracle(prop, graph, init, ops, obs):
         if prop == "C06" and o["out"] == "ok" and "n" in op and op["n"] < len(prev):
             # "may fall back from SCHEDULED to its earlier state": the state it was scheduled from
             if op["op"] == "schedule" and prev[op["n"]][0] != "SCHEDULED":
-                before_sched[op["n"]] = prev[op["n"]][0]
+                # (only the lifecycle the property describes: a task scheduled from PREEMPTED is outside it)
+                if prev[op["n"]][0] in ("VIRTUAL", "RELEASED"):
+                    before_sched[op["n"]] = prev[op["n"]][0]
+                else:
+                    before_sched.pop(op["n"], None)
             elif op["op"] == "unschedule" and op["n"] in before_sched and cur[op["n"]][0] in ("VIRTUAL", "RELEASED") and cur[op["n"]][0] != before_sched[op["n"]]:
                 yield (f"C06 unschedule-falls-back-to-{cur[op['n']][0]}-instead-of-the-earlier-state-{before_sched[op['n']]}", {"step": i, "task": op["n"]})
         pst = [t[0] for t in prev]
